@@ -132,6 +132,40 @@ def check_item(ctx, kind, frames):
                 ctx.fail(f"{kind}/present-frame-value", f"{kind}: frame {i} decodes to {g}, stored {f}")
     if outs[0] != outs[1]:
         ctx.fail(f"{kind}/decode-not-deterministic", f"{kind}: two decodes of the same bytes differ (memory-state dependent)")
+    # the same track object, its gap pattern changed in place, written again: the run table must follow the data it holds NOW
+    frames2 = frames[1:] + frames[:1] if n > 1 else [None if frames[0] is not None else (0x3F800000 if pf == 1 else [0x3F800000] * pf)]
+    if frames2 != frames:
+        try:
+            full = specs.frames_to_array(frames2, pf, specs.PLAIN_HINTS)
+            arrs = arrays(item)
+            if pf == 1:
+                arrs[0][:] = full
+            else:
+                col = 0
+                for a in arrs:
+                    w_ = a.shape[1] if a.ndim == 2 else 1
+                    a[...] = full[:, col:col + w_].reshape(a.shape)
+                    col += w_
+        except (ValueError, TypeError):
+            return  # arrays not writable in place: nothing to check
+        ok, w2 = ctx.must(lambda: write(item), f"{kind}/encode-after-edit", f"encoding a {kind} track after its data were edited in place")
+        if not ok:
+            return
+        d2 = reftdf.Dec(w2)
+        segs2 = []
+        try:
+            if has_label:
+                d2.string(256)
+            stored2 = reftdf._dec_rle(d2, n, pf, segs2)
+        except reftdf.RefError as e:
+            ctx.fail(f"{kind}/after-edit-unparseable", f"{kind}: track written after an in-place edit does not parse: {e}")
+            return
+        if [tuple(x) for x in segs2[0]] != reftdf.runs_of(frames2) or stored2 != frames2:
+            ctx.fail(f"{kind}/stale-runs-after-edit", f"{kind}: after the gap pattern was changed in place the written run table is {segs2[0][:6]}, "
+                                                      f"the data now has runs {reftdf.runs_of(frames2)[:6]}")
+        ok, nb = ctx.must(lambda: item.nBytes, f"{kind}/nBytes-after-edit", "nBytes after edit")
+        if ok and nb != len(w2):
+            ctx.fail(f"{kind}/nBytes-after-edit", f"{kind}: nBytes {nb} vs {len(w2)} bytes written after an in-place edit")
 
 
 def mask_labels(kind, frames):
@@ -175,7 +209,7 @@ def enum_masks(tier):
 
 # ---------------------------------------------------------------------------------------
 def tracks_strategy(tier):
-    nmax = 60 if tier == "quick" else 400
+    nmax = 300 if tier == "quick" else 600
 
     @st.composite
     def cases(draw):
